@@ -4,6 +4,7 @@ use crate::inst::{gen_instance, Inst, Profile};
 use crate::prng::Rng;
 
 pub mod net;
+pub mod tour;
 
 pub fn header(name: &str, scope: &str, seed: u64, k: u64, tier: &str) -> String {
     format!("CASE {} {} {} {} {}\n", name, scope, seed, k, tier)
@@ -16,6 +17,17 @@ pub fn generate(scope: &str, name: &str, seed: u64, k: u64, rng: &mut Rng, tier:
             let p = if rng.chance(50) { Profile::small() } else { Profile::medium() };
             let inst = gen_instance(rng, &p);
             head + &net::run(inst)
+        }
+        "tour" => {
+            let p = Profile::small();
+            let inst = gen_instance(rng, &p);
+            match load_or_report(inst) {
+                Err(s) => head + &s,
+                Ok(ctx) => {
+                    let n = if tier == "thorough" { rng.range(20, 120) } else { rng.range(10, 40) };
+                    head + &ctx.inst.to_text() + &tour::generate(&ctx, rng, n)
+                }
+            }
         }
         _ => panic!("unknown scope {}", scope),
     }
@@ -31,6 +43,10 @@ pub fn rerun(text: &str) -> String {
     let head = format!("{}\n", first);
     match scope {
         "net" => head + &net::run(inst),
+        "tour" => match load_or_report(inst) {
+            Err(s) => head + &s,
+            Ok(ctx) => head + &ctx.inst.to_text() + &tour::rerun(&ctx, text),
+        },
         _ => panic!("unknown scope {}", scope),
     }
 }
